@@ -6,7 +6,8 @@ from .load import gen_load_case, observe_load
 class C01(Prop):
     id = "C01"
     trace_module = "Trace_Load"
-    mc = [{"module": "MC_Load", "quick": "MC_Load_quick.cfg", "thorough": "MC_Load.cfg", "actions": ["Align", "Trim", "Index"]}]
+    mc = [{"module": "MC_Load", "quick": "MC_Load_quick.cfg", "thorough": "MC_Load.cfg", "actions": ["Align", "Trim", "Index"]},
+          {"module": "MC_Sessions", "quick": "MC_Sessions.cfg", "thorough": "MC_Sessions.cfg", "actions": []}]
     n_cases = {"quick": 200, "thorough": 3000}
     rule = ("seeded generator: 1-4 ranks, mixed .json/.json.gz, integer or k/8 (k/4 at epoch 1.7e15) fractional timestamps, epoch offset in "
             "{0,7,1e3,1e6,1.7e15}, metadata/flow/instant/Trace-span entries interleaved, file order shuffled; parse-only (sequential and "
